@@ -439,6 +439,47 @@ def stream_ipv6(ctx, r):
             lines.append("ipv6ser " + " ".join(str(x) for x in a))
     return [Case(lines[i:i + 2000], "ipv6") for i in range(0, len(lines), 2000)]
 
+def stream_buffer(ctx, r):
+    """size arithmetic of simple_buffer / util (Impl.Buffer): values aimed at the case splits of the
+    C04 theorems - max_size() and its half, 2^63, 2^64-1, the doubling chain, the 64-bit wrap"""
+    W = 1 << 64
+    def near(x):
+        return max(0, min(W - 1, x + r.choice([-2, -1, 0, 0, 1, 2])))
+    def big():
+        k = r.random()
+        if k < 0.25: return near(r.choice([0, 1, 4, 15, 16, 17, 32, 1024, 1025, 65536]))
+        if k < 0.5: return near(1 << r.randint(0, 64))
+        if k < 0.6: return near(r.choice([W - 1, (1 << 63) - 1, 1 << 63, (1 << 62), (1 << 63) + (1 << 62)]))
+        return r.randrange(0, 1 << r.randint(1, 64))
+    def msz():
+        k = r.random()
+        if k < 0.35: return (1 << 63) - 1                    # std::allocator<char>::max_size()
+        if k < 0.5: return near(r.choice([(1 << 63) - 1, (1 << 62) - 1, (1 << 61) - 1, W - 1, 1 << 63]))
+        if k < 0.7: return r.choice([0, 1, 3, 4, 5, 7, 8, 15, 16, 17, 31, 32, 33, 63, 64, 100, 1000, 65535, 65536, 131071, 131072])
+        return big()
+    lines = []
+    n = scale(ctx, 1500, 40000)
+    for _ in range(n):
+        M = msz()
+        lines.append("buf_add %d %d %d" % (M, big() if r.random() < 0.5 else near(M), big()))
+        cap = big()
+        lines.append("buf_grow %d %d %d" % (M, cap, r.choice([big(), near(cap), near(cap * 2 % W), near(cap * 4 % W), near(M), near(M >> 1)])))
+        cap = r.choice([0, 1, 3, 4, 5, 8, 16, 17, 100, 1024, 65536, r.randint(0, 65536)])
+        size = r.choice([cap, cap, max(0, cap - 1), r.randint(0, cap)])
+        Ms = r.choice([M, near(size), near(cap), near(2 * cap), near(size + 1)])
+        lines.append("buf_push %d %d %d" % (Ms, size, cap))
+        nc = r.choice([0, 1, cap - size if cap >= size else 0, max(0, cap - size + 1), r.randint(0, 65536), 65536])
+        Ms = r.choice([M, near(size + nc), near(cap), near(2 * (size + nc))])
+        lines.append("buf_append %d %d %d %d" % (Ms, size, cap, nc))
+        a = big()
+        lines.append("util_add %d %d %d" % (a, r.choice([big(), near(M - a if M >= a else 0)]), r.choice([M, big(), near(a)])))
+        b = r.choice([big(), near(a), near((a + (1 << 63)) % W), near((a - (1 << 63)) % W)])
+        lines.append("util_diff %d %d" % (a, b))
+        base = r.choice([10, 16, 10, 16, 2, 3, 8, r.randint(2, 16)])
+        num = r.choice([0, 1, 255, 65535, (1 << 32) - 1, r.randrange(0, 1 << 32), max(0, min((1 << 32) - 1, base ** r.randint(0, 32) + r.choice([-1, 0, 1])))])
+        lines.append("util_u2s %d %d" % (num, base))
+    return [Case(lines[i:i + 2000], "buffer") for i in range(0, len(lines), 2000)]
+
 def stream_percent(ctx, r):
     lines = []
     sets = ["fragment", "query", "special_query", "path", "raw_path", "posix_path", "userinfo", "component"]
@@ -718,6 +759,7 @@ STREAMS = {
     "encodings": (stream_encodings, oracle_state),
     "ipv4": (stream_ipv4, oracle_state),
     "ipv6": (stream_ipv6, oracle_state),
+    "buffer": (stream_buffer, oracle_state),
     "percent": (stream_percent, oracle_state),
     "urlenc": (stream_urlenc, oracle_state),
     "usp": (stream_usp, oracle_state),
